@@ -249,7 +249,7 @@ impl Case {
 /// One evaluation is held suspended inside a user function while tens of thousands of other evaluations of the same
 /// ruleset start and finish; when it is let go it must finish as if it had run alone (its own results, one invocation
 /// per cacheable call).
-fn check_parked(rt: &tokio::runtime::Runtime, others: usize) -> Verdict {
+fn check_parked(rt: &tokio::runtime::Runtime, others: usize, hold_ms: u64) -> Verdict {
     use rvv::probe::PARK_RELEASE;
     let call = |f: &str, x: Expr| Expr::func(f, Expr::Vec(vec![Expr::reff("id"), x]));
     let mut fns = BTreeMap::new();
@@ -296,7 +296,13 @@ fn check_parked(rt: &tokio::runtime::Runtime, others: usize) -> Verdict {
             }
             ok
         });
+        let started = std::time::Instant::now();
         let others_ok = runner.await.unwrap_or(false);
+        // (optionally the evaluation stays held for a while longer, with a trickle of other evaluations starting meanwhile)
+        while (started.elapsed().as_millis() as u64) < hold_ms {
+            tokio::time::sleep(std::time::Duration::from_millis(2)).await;
+            let _ = rs.evaluate_value(&rvv::pool::map(&[("id", Value::Int(1002))])).await;
+        }
         PARK_RELEASE.store(true, Ordering::SeqCst);
         (parked.await.ok(), others_ok)
     });
@@ -315,6 +321,88 @@ fn check_parked(rt: &tokio::runtime::Runtime, others: usize) -> Verdict {
                 base_log
             ),
         )),
+    }
+}
+
+#[derive(serde::Serialize)]
+struct Order {
+    total: u32,
+}
+
+/// (the only field sits at the address of the struct itself)
+#[derive(serde::Serialize)]
+#[repr(C)]
+struct Message {
+    order: Order,
+}
+
+/// `evaluate(&T)` of a struct, held suspended, while `evaluate(&T.field)` of its first field (same address, other type) and
+/// of an unrelated value run on the same ruleset: every evaluation sees its own input.
+fn check_same_address_inputs(rt: &tokio::runtime::Runtime) -> Verdict {
+    use rvv::probe::PARK_RELEASE;
+    let mut fns = BTreeMap::new();
+    fns.insert("fc".to_string(), me::FnSpec { cacheable: true, fail_on: vec![], fail_first: 0, uncacheable_after: 0 });
+    let spec = SetSpec {
+        rules: vec![
+            ("whole".into(), Expr::reff("facts")),
+            (
+                "hold".into(),
+                Expr::iif(
+                    Expr::contains(Expr::reff("facts"), Expr::value("order".to_string())),
+                    Expr::func("fc", Expr::Vec(vec![Expr::value(1000), Expr::value("park".to_string())])),
+                    Expr::value(0),
+                ),
+            ),
+            ("whole-again".into(), Expr::reff("facts")),
+        ],
+        fns,
+        symbols: BTreeMap::new(),
+        suspend: 1,
+    };
+    let message = Arc::new(Message { order: Order { total: 7 } });
+    let built = probe::build(&spec, true);
+    let log = built.log.clone();
+    let rs = Arc::new(built.ruleset);
+    PARK_RELEASE.store(false, Ordering::SeqCst);
+    let (held, inner, other) = rt.block_on(async {
+        let (rs1, m1) = (rs.clone(), message.clone());
+        let held = tokio::spawn(async move { detach(rs1.evaluate(&*m1).await.expect("evaluate")) });
+        for _ in 0..100_000 {
+            tokio::task::yield_now().await;
+            if !log.lock().unwrap().is_empty() {
+                break;
+            }
+        }
+        let inner = detach(rs.evaluate(&message.order).await.expect("evaluate"));
+        let other = detach(rs.evaluate(&Order { total: 9 }).await.expect("evaluate"));
+        PARK_RELEASE.store(true, Ordering::SeqCst);
+        (held.await.ok(), inner, other)
+    });
+    PARK_RELEASE.store(true, Ordering::SeqCst);
+    let order_map = |t: i128| rvv::pool::map(&[("total", Value::Int(t))]);
+    let want_inner = order_map(7);
+    let want_other = order_map(9);
+    let want_held = rvv::pool::map(&[("order", order_map(7))]);
+    let whole = |o: &Outs| o.first().and_then(|(_, v)| v.as_ref().ok().cloned());
+    let ok = whole(&inner).map(|v| same_value(&v, &want_inner, true)).unwrap_or(false)
+        && whole(&other).map(|v| same_value(&v, &want_other, true)).unwrap_or(false)
+        && held.as_ref().and_then(whole).map(|v| same_value(&v, &want_held, true)).unwrap_or(false)
+        && held.as_ref().map(|o| matches!(&o[2].1, Ok(v) if same_value(v, &want_held, true))).unwrap_or(false);
+    if ok {
+        Ok(())
+    } else {
+        Err(Issue::new(
+            "threads:inputs-at-one-address",
+            format!(
+                "evaluate(&message) held suspended, evaluate(&message.order) and evaluate(&other order) meanwhile: `facts` was {:?} / {:?} / {:?}, expected {} / {} / {}",
+                held.as_ref().and_then(whole).map(|v| show_value(&v)),
+                whole(&inner).map(|v| show_value(&v)),
+                whole(&other).map(|v| show_value(&v)),
+                show_value(&want_held),
+                show_value(&want_inner),
+                show_value(&want_other)
+            ),
+        ))
     }
 }
 
@@ -519,8 +607,17 @@ fn main() {
         }
         let j: serde_json::Value = serde_json::from_str(&text).expect("json");
         let case = j.get("case").cloned().unwrap_or(j);
+        if case.get("same_address_inputs").is_some() {
+            if let Err(i) = check_same_address_inputs(&rt) {
+                println!("DETAIL property=C18 sig={} {}", i.sig, i.msg);
+                println!("VIOLATION property=C18 replay={}", args[3]);
+                std::process::exit(1);
+            }
+            println!("REPLAY property=C18 holds on {}", args[3]);
+            return;
+        }
         if let Some(n) = case.get("parked_others").and_then(|x| x.as_u64()) {
-            if let Err(i) = check_parked(&rt, n as usize) {
+            if let Err(i) = check_parked(&rt, n as usize, case.get("hold_ms").and_then(|x| x.as_u64()).unwrap_or(0)) {
                 println!("DETAIL property=C18 sig={} {}", i.sig, i.msg);
                 println!("VIOLATION property=C18 replay={}", args[3]);
                 std::process::exit(1);
@@ -585,15 +682,29 @@ fn main() {
         if !failed {
             let mut pacc = Acc::default();
             let tp = std::time::Instant::now();
-            for others in [100usize, 70_000] {
-                let r = check_parked(&rt, others);
-                pacc.case("parked", true, || format!("one evaluation held while {others} others run"));
+            for (others, hold_ms) in [(100usize, 0u64), (70_000, 0), (600, 6_500)] {
+                let r = check_parked(&rt, others, hold_ms);
+                pacc.case("parked", true, || format!("one evaluation held while {others} others run (held for at least {hold_ms} ms)"));
                 if let Err(issue) = r {
-                    let case = json!({"parked_others": others});
+                    let case = json!({"parked_others": others, "hold_ms": hold_ms});
                     if let Err(issue) = ctx.triage(issue, &|| case.to_string()) {
                         ctx.violation("threads", case, &issue);
                         failed = true;
                         break;
+                    }
+                }
+            }
+            if !failed {
+                for _ in 0..3 {
+                    let r = check_same_address_inputs(&rt);
+                    pacc.case("same-address", true, || "evaluate(&struct) held while evaluate(&struct.first_field) runs".to_string());
+                    if let Err(issue) = r {
+                        let case = json!({"same_address_inputs": true});
+                        if let Err(issue) = ctx.triage(issue, &|| case.to_string()) {
+                            ctx.violation("threads", case, &issue);
+                            failed = true;
+                            break;
+                        }
                     }
                 }
             }
